@@ -21,6 +21,14 @@ from vf.sim.world import World, classify_stop
 TRACE = ('aiuti/asyncio.py', 'asyncio/runners.py')
 
 
+class InvBaseFailure(BaseException):
+    """Same, deriving directly from BaseException (like pytest's outcome exceptions)."""
+
+    def __init__(self, inv):
+        super().__init__(inv)
+        self.inv = inv
+
+
 class InvFailure(Exception):
     """Raised by the harness-owned wrapped function; tagged with the invocation."""
 
@@ -113,9 +121,10 @@ def run(case, max_steps=300000):
             try:
                 if plan['dur'] >= 0:
                     await aio.sleep(plan['dur'])
-                if plan['outcome'] == 'raise':
+                if plan['outcome'] in ('raise', 'raise_base'):
                     rec['kind'] = 'raise'
-                    rec['exc'] = InvFailure(me)
+                    # 'raise_base': the invocation fails with an exception that derives directly from BaseException
+                    rec['exc'] = InvFailure(me) if plan['outcome'] == 'raise' else InvBaseFailure(me)
                     raise rec['exc']
                 rec['kind'] = 'ret'
                 rec['value'] = ('value', key, me)
